@@ -256,6 +256,18 @@ func (vc *FuncVC) loadAt(st *State, p PtrVal) Value {
 	case *types.Struct:
 		sv := &StructVal{T: p.T}
 		if !vc.isLocalStruct(p.T) {
+			// external struct: its scalar fields are modelled (and copied with the value), the rest is not
+			any := false
+			fs := make([]Value, u.NumFields())
+			for i := 0; i < u.NumFields(); i++ {
+				if vc.sortOf(u.Field(i).Type()) != "" {
+					fs[i] = vc.loadAt(st, vc.fieldPtr(p, i))
+					any = true
+				}
+			}
+			if any {
+				sv.F = fs
+			}
 			return sv
 		}
 		for i := 0; i < u.NumFields(); i++ {
@@ -313,10 +325,21 @@ func (vc *FuncVC) storeAt(st *State, p PtrVal, v Value) {
 	case PtrVal:
 		vc.storeLeaf(st, p, vc.ptrTerm(x))
 	case *StructVal:
-		if len(x.F) == 0 {
-			return // opaque external struct
-		}
 		u := p.T.Underlying().(*types.Struct)
+		if len(x.F) == 0 {
+			// opaque value of an external struct type: whatever scalar fields the destination models become unknown
+			if !vc.isLocalStruct(p.T) {
+				for i := 0; i < u.NumFields(); i++ {
+					if s := vc.sortOf(u.Field(i).Type()); s != "" {
+						fp := vc.fieldPtr(p, i)
+						v := vc.fresh(st, "copied."+u.Field(i).Name(), s)
+						vc.storeLeaf(st, fp, v)
+						vc.assumeTyped(st, v, u.Field(i).Type())
+					}
+				}
+			}
+			return
+		}
 		for i := 0; i < u.NumFields(); i++ {
 			if x.F[i] == nil {
 				continue // unmodelled part of an external struct
